@@ -62,7 +62,8 @@ def setUpOk (p : Program) : Bool := (termExcs p.setUp.term).isEmpty
 
 /-- input well-formedness assumed by the clauses: distinct stage ids; user handlers only for classes
 deriving from `Exception` (KeyboardInterrupt & co. are not claimed by configuration); the case's own skip
-reporter (which reads the reason off the exception) is only reused for skip classes -/
+reporter (which reads the reason off the exception) is only reused for skip classes; the initial
+attribute store of the scratch object is a dict (distinct attribute names) -/
 def idsNodup : List Nat → Bool
   | [] => true
   | x :: xs => !xs.contains x && idsNodup xs
@@ -85,7 +86,8 @@ def dictsOf (st : Stage) : List (List (DName × UC)) :=
 def wf (p : Program) : Bool :=
   idsNodup ((allStages p).map Stage.id) && p.userHandlers.all (fun h => isSub h.1 .exc) &&
   p.userHandlers.all (fun h => h.2 != .std .skip || isSub h.1 .skip) &&
-  (allStages p).all (fun st => (dictsOf st).all fun ds => namesNodup (ds.map (·.1)))
+  (allStages p).all (fun st => (dictsOf st).all fun ds => namesNodup (ds.map (·.1))) &&
+  idsNodup (p.attrs0.map (·.1))
 
 /-! ### reading a trace -/
 def stageIds (t : Trace) : List Nat := t.events.filterMap fun | .stage i => some i | _ => none
